@@ -319,7 +319,12 @@ def run_prog(prog):
                 ctx.live.add(0)
             return r
     ctor = bool(prog.get("ctor"))
-    doist = BudgetDoist(tock=prog["tock"], limit=prog["limit"], real=False, tyme=prog["tyme"])
+    called = prog.get("mode") == "call"     # run through the callable form doist(doers, limit, tyme)
+    if called:
+        # limit and start tyme are then given to the call, not to the constructor
+        doist = BudgetDoist(tock=prog["tock"], real=False, tyme=0.0 if prog["tyme"] else 1.0)
+    else:
+        doist = BudgetDoist(tock=prog["tock"], limit=prog["limit"], real=False, tyme=prog["tyme"])
     ctx.doist = doist
     ctx.objs[0] = doist
     for i in sorted(int(k) for k in prog["defs"]):
@@ -332,6 +337,8 @@ def run_prog(prog):
     handed = tuple(doers) if prog.get("doers_as") == "tuple" else doers
     handed_copy = list(handed)
     runs = [dict(doers=None if ctor else handed)]
+    if called:
+        runs[0].update(limit=prog["limit"], tyme=prog["tyme"])
     for a in prog.get("again", []):
         kw = {}
         if a.get("limit") is not None:
@@ -400,6 +407,8 @@ def run_prog(prog):
         try:
             if prog.get("mode", "do") == "ado":
                 asyncio.run(doist.ado(**kw))
+            elif called:
+                doist(**kw)
             else:
                 doist.do(**kw)
             ctx.log.append(("DoReturn", 0, doist.tyme))
@@ -922,6 +931,8 @@ def gen_broad(rng, n):
             p = gen_dynamic(rng, faults=(rng.random() < 0.4), always_p=0.5, tocks=rng.choice(["dyadic", "any"]))
         if rng.random() < 0.3:
             p["mode"] = "ado"
+        elif rng.random() < 0.2:
+            p["mode"] = "call"
         add_opt_always(rng, p)
         if rng.random() < 0.2:
             p["doers_as"] = "tuple"
